@@ -216,6 +216,27 @@ Definition acc_fullbound (a : acc) (k : option fullk) (mx mn : option E) : acc :
 Definition zeros_like (t : tensor) : tensor := repeat (zero N) (length t).
 
 (* Accumulator.update (modeling.py:196-231): the four presence cases, each in list / non-list form *)
+Definition bind_apply (b : bindT) (x : tensor) (p n : option tensor) : res (option tensor) :=
+  match p, n with
+  | Some p, Some n =>
+      match b with
+      | BHalf u l =>
+          rbind (half_t u x p) (fun up => rbind (half_t l x n) (fun ln =>
+          rbind (map2e (sub N) up ln) (fun r => Ok (Some r))))
+      | b => rbind (full_t b x p n) (fun r => Ok (Some r))
+      end
+  | Some p, None =>
+      match b with
+      | BHalf u l => rbind (half_t u x p) (fun r => Ok (Some r))
+      | b => rbind (full_t b x p (zeros_like p)) (fun r => Ok (Some r))
+      end
+  | None, Some n =>
+      match b with
+      | BHalf u l => rbind (half_t l x n) (fun r => Ok (Some (map (opp N) r)))
+      | b => rbind (full_t b x (zeros_like n) n) (fun r => Ok (Some r))
+      end
+  | None, None => Ok None
+  end.
 Definition acc_update (a : acc) (x : tensor) : acc * res (option tensor) :=
   let (a1, rp) := get_pos a in
   match rp with
@@ -224,28 +245,7 @@ Definition acc_update (a : acc) (x : tensor) : acc * res (option tensor) :=
       let (a2, rn) := get_neg a1 in
       match rn with
       | Err e => (a2, Err e)
-      | Ok n =>
-          (a2,
-           match p, n with
-           | Some p, Some n =>
-               match abind a2 with
-               | BHalf u l =>
-                   rbind (half_t u x p) (fun up => rbind (half_t l x n) (fun ln =>
-                   rbind (map2e (sub N) up ln) (fun r => Ok (Some r))))
-               | b => rbind (full_t b x p n) (fun r => Ok (Some r))
-               end
-           | Some p, None =>
-               match abind a2 with
-               | BHalf u l => rbind (half_t u x p) (fun r => Ok (Some r))
-               | b => rbind (full_t b x p (zeros_like p)) (fun r => Ok (Some r))
-               end
-           | None, Some n =>
-               match abind a2 with
-               | BHalf u l => rbind (half_t l x n) (fun r => Ok (Some (map (opp N) r)))
-               | b => rbind (full_t b x (zeros_like n) n) (fun r => Ok (Some r))
-               end
-           | None, None => Ok None
-           end)
+      | Ok n => (a2, bind_apply (abind a2) x p n)
       end
   end.
 (* Accumulator.forward (modeling.py:233-246) *)
